@@ -149,7 +149,7 @@ func runC17(r *core.Run) {
 		}, checkSketch)
 
 	vpool := [][]string{{"ACGTA"}, {"AAC", "GTT"}, {"ACG", "T", "CCAT"}, {"GATTACA"}, {"AC", "CA", "AC"}, {"TTTT", "AAAA"}, {"ACGT", "TGCA", "N"}, {"CAGT", "AG"}}
-	r.Bound("variants", fmt.Sprintf("%d base inputs %v x k in {1,2,3} x n in {2,3,8}: every subset of sequences reverse-complemented, every case mask of every sequence of length <= 4 (else 16 masks), every permutation, every partition of the list into successive Add calls, every n' < n", len(vpool), vpool))
+	r.Bound("variants", fmt.Sprintf("%d base inputs %v x k in {1,2,3} x n in {2,3,8}: every subset of sequences reverse-complemented, every case mask of every sequence of length <= 4 (else 16 masks), every permutation, every partition of the list into successive calls (Adds onto minhash.New(n), onto an empty Sequences(n,k), and Sequences(n,k, first group) continued with Add), every n' < n", len(vpool), vpool))
 	core.Clause(r, "variants", core.Opts{Rule: "for each base input every strand / case / order / partition variant is built on real sketches and must give the same View(); Add-built sketches must equal Sequences-built ones; a smaller sketch is the tail of a larger one; non-trivial = all"},
 		func(emit func(c17Variant) bool) {
 			for _, base := range vpool {
@@ -231,19 +231,33 @@ func runC17(r *core.Run) {
 			enum.Compositions(m, func(parts []int) bool {
 				evals++
 				var view []uint64
-				p := catch(func() {
-					mh := minhash.New[uint64](c.N)
-					off := 0
-					for _, l := range parts {
-						mash.Add(mh, c.K, toBytes(c.Seqs[off:off+l])...)
-						off += l
+				// the sketch the Adds start from: minhash.New(n), an empty Sequences(n,k), or Sequences(n,k,
+				// first group) followed by Add for the remaining groups
+				for start := 0; start < 3 && fail == ""; start++ {
+					p := catch(func() {
+						var mh *minhash.MinHash[uint64]
+						off, rest := 0, parts
+						switch start {
+						case 0:
+							mh = minhash.New[uint64](c.N)
+						case 1:
+							mh = mash.Sequences(c.N, c.K)
+						default:
+							mh = mash.Sequences(c.N, c.K, toBytes(c.Seqs[:parts[0]])...)
+							off, rest = parts[0], parts[1:]
+						}
+						for _, l := range rest {
+							mash.Add(mh, c.K, toBytes(c.Seqs[off:off+l])...)
+							off += l
+						}
+						view = slices.Clone(mh.View())
+					})
+					from := []string{"minhash.New(n)", "an empty Sequences(n,k)", "Sequences(n,k, first group)"}[start]
+					if p != "" {
+						fail = fmt.Sprintf("Add in groups %v starting from %s panicked: %s", parts, from, p)
+					} else if !slices.Equal(view, want) {
+						fail = fmt.Sprintf("n=%d k=%d: building %q incrementally in groups of %v, starting from %s and continuing with Add, gives %v, in one call %v", c.N, c.K, c.Seqs, parts, from, view, want)
 					}
-					view = slices.Clone(mh.View())
-				})
-				if p != "" {
-					fail = fmt.Sprintf("Add in groups %v panicked: %s", parts, p)
-				} else if !slices.Equal(view, want) {
-					fail = fmt.Sprintf("n=%d k=%d: building %q incrementally with Add in groups of %v gives %v, in one call %v", c.N, c.K, c.Seqs, parts, view, want)
 				}
 				return fail == ""
 			})
